@@ -26,6 +26,7 @@ type Obligation struct {
 	regionScript string // script re-verifying the obligation outside a known-finding region
 	replayed     bool
 	goal, path   string
+	regionTerm   string
 	nlines       int
 	group        *oblGroup
 	sorts        *Sorts
@@ -84,6 +85,10 @@ type Gen struct {
 	entry       *State
 	stack       []*ssa.Function
 	needDivFns  bool
+	topFrame    *Frame
+	noHoist     int
+	pureHeap    map[string]bool
+	axiomDone   map[string]bool
 	needReMatch bool
 	freshRefs   map[string]bool
 	defs        map[string]string
@@ -105,7 +110,7 @@ type Gen struct {
 func newGen(P *Program, fn *ssa.Function, con *Contract, mode IntMode) *Gen {
 	g := &Gen{P: P, fn: fn, con: con, mode: mode, S: newSorts(mode, P),
 		strConsts: map[string]string{}, heapSorts: map[string]string{}, notes: map[string]bool{},
-		pureDone: map[string]bool{}, globals: map[string]string{}, counters: map[string]int{}, knownDyn: map[string]types.Type{}}
+		pureDone: map[string]bool{}, pureHeap: map[string]bool{}, axiomDone: map[string]bool{}, globals: map[string]string{}, counters: map[string]int{}, knownDyn: map[string]types.Type{}}
 	return g
 }
 
@@ -117,6 +122,9 @@ func (g *Gen) fresh(prefix string) string {
 func (g *Gen) emit(line string) { g.lines = append(g.lines, line) }
 
 func (g *Gen) declare(prefix, srt string) string {
+	if g.noHoist > 0 && !strings.HasPrefix(prefix, "strc") {
+		fail("spec: an unknown value (%s) arises inside a quantified specification context; use a simpler accessor", prefix)
+	}
 	n := g.fresh(prefix)
 	g.emit(fmt.Sprintf("(declare-const %s %s)", n, srt))
 	return n
@@ -126,6 +134,9 @@ func (g *Gen) define(prefix, srt, expr string) string {
 	// keep tiny terms inline
 	if len(expr) < 24 && !strings.ContainsAny(expr, " ") {
 		return expr
+	}
+	if g.noHoist > 0 {
+		return expr // under binders: definitions cannot be hoisted to the top level
 	}
 	n := g.fresh(prefix)
 	g.emit(fmt.Sprintf("(define-fun %s () %s %s)", n, srt, expr))
@@ -137,14 +148,14 @@ func (g *Gen) define(prefix, srt, expr string) string {
 }
 
 func (g *Gen) assume(cond string) {
-	if cond == "true" {
+	if cond == "true" || g.noHoist > 0 {
 		return
 	}
 	g.emit("(assert " + cond + ")")
 }
 
 func (g *Gen) assumeUnder(path, cond string) {
-	if cond == "true" {
+	if cond == "true" || g.noHoist > 0 {
 		return
 	}
 	if path == "true" {
@@ -284,6 +295,7 @@ func (g *Gen) oblige(kind, site, path, goal, clause string) *Obligation {
 	o.goal, o.path = goal, path
 	o.model = g.params
 	o.sorts = g.S
+	g.attachRegion(o)
 	g.obls = append(g.obls, o)
 	return o
 }
@@ -350,6 +362,9 @@ func (g *Gen) finalize() {
 	for _, o := range g.obls {
 		if o.script == "TRIVIAL" {
 			continue
+		}
+		if o.regionTerm != "" {
+			o.regionScript = head + body(o.nlines) + "(assert (not " + o.regionTerm + "))\n" + o.script + "(check-sat)\n"
 		}
 		o.script = head + body(o.nlines) + o.script + "(check-sat)\n"
 		o.SmtBytes = len(o.script)
@@ -554,4 +569,29 @@ func (g *Gen) posOf(in ssa.Instruction) string {
 	}
 	ps := g.P.prog.Fset.Position(p)
 	return strings.TrimPrefix(ps.Filename, g.P.repo+"/") + ":" + fmt.Sprint(ps.Line)
+}
+
+// attachRegion: when the obligation is listed as a known finding with an input region, prepare the query
+// that re-verifies it outside that region (a failure there is a different violation).
+func (g *Gen) attachRegion(o *Obligation) {
+	if g.con == nil || g.topFrame == nil {
+		return
+	}
+	for _, k := range g.con.Known {
+		if k.Region == "" {
+			continue
+		}
+		match := k.Obligation == o.Name || (strings.HasSuffix(k.Obligation, "*") && strings.HasPrefix(o.Name, strings.TrimSuffix(k.Obligation, "*")))
+		if !match {
+			continue
+		}
+		e, err := parseSpec(k.Region)
+		if err != nil {
+			fail("known_findings.json: region of %s: %v", k.Obligation, err)
+		}
+		fr := g.topFrame
+		t := fr.evalBool(e, &specCtx{fr: fr, st: fr.entry, old: fr.entry, kind: ctxPre, pkg: g.con.Pkg})
+		o.regionTerm = g.define("region", "Bool", t)
+		o.nlines = len(g.lines)
+	}
 }
